@@ -471,3 +471,22 @@ func c16OwnVsRelayed(proto int, tag string) {
 
 func harnessC16OwnVsRelayedUDP()  { c16OwnVsRelayed(1, "C16/udp") }
 func harnessC16OwnVsRelayedICMP() { c16OwnVsRelayed(2, "C16/icmp") }
+
+// The agent's own TCP stream (next hop c16Peer(4), arbitrary local stream id x) and a frame
+// from another neighbour that carries the same numeric id, e.g. the late close of a relayed
+// tunnel whose entry is already gone (crossing closes): it neither reaches nor ends the
+// agent's own stream.
+func harnessC16OwnStreamVsStranger() {
+	a := c16Agent()
+	x := verif_nondet_u64()
+	next := c16Peer(4)
+	s, err := a.streamMgr.AcceptStream(x, 1, next, "h", 80)
+	verif_assert(err == nil && s != nil, "C16/own-stream/setup")
+	p := c16Peer(verif_choose(4))
+	c16Log = nil
+	kind := verif_choose(3)
+	c16Deliver(a, kind, p, x, verif_nondet_bytes(1))
+	verif_reach("C16/own-stream/stranger")
+	verif_assert(a.streamMgr.GetStream(x) == s && s.State() == stream.StateOpen, "C16/own-stream/frame-of-another-peer-ends-the-agents-own-stream")
+	verif_assert(len(s.ReadBuffer()) == 0, "C16/own-stream/frame-of-another-peer-delivered-into-the-agents-own-stream")
+}
